@@ -64,8 +64,9 @@ THEOREMS = [
     dict(name="Snow.C19.no_late_rejection", clause="never later, as far as modelled: Snowing.run's if/elif dispatch on const[dimensionality] takes a branch on every successful load; the later uses of vial_arrangement (Snowflake topology: C09) and of configuration inside the Snowing loops are NOT part of this theorem", strength="partial"),
     dict(name="Snow.C19.dispatch_total", clause="the dispatch is total on the decision table", strength="full"),
     dict(name="Snow.C19.derived_present", clause="the thirty always-returned constants are present in the returned dict (num/str are totalised to 0/'' only for absent keys)", strength="full"),
-    dict(name="Snow.C19.unknown_keys_inert_default", clause="RUN LEVEL, generated default tree + generated calculateDerived + _loadConfig, hK discharged: a custom file and the same file without its unknown key names give the same constants or the same exception", strength="full"),
-    dict(name="Snow.C19.layering_exact_default", clause="RUN LEVEL, generated default: calculateDerived(path) = generated calculateDerived on a tree in which EVERY scalar entry of the default is the file's entry if the file (unknown names removed) names it and the default's entry otherwise", strength="full"),
+    dict(name="Snow.C19.unknown_keys_inert_default", clause="RUN LEVEL, generated default tree + generated calculateDerived + _loadConfig, hK discharged; remaining hypotheses: WF(file) = distinct keys in every mapping, and Sub(prune(known names, file), default) = once the unknown names are removed no valid key is nested in a wrong place (under them the load itself never raises - partial_file_loads - so 'same exception' concerns exceptions of calculateDerived only; a clashing file (TypeError of the load) is outside the theorem): a custom file and the same file without its unknown key names give the same constants or the same exception", strength="full"),
+    dict(name="Snow.C19.layering_exact_default", clause="RUN LEVEL, generated default (same two hypotheses WF and Sub(prune …)): calculateDerived(path) = generated calculateDerived on a tree in which EVERY scalar entry of the default is the file's entry if the file (unknown names removed) names it and the default's entry otherwise", strength="full"),
+    dict(name="Snow.C19.default_instance_unknown_key", clause="non-vacuity of the two run-level theorems: the concrete file {solution: {cp_s: 1300, bogus: 1}, extra: {x: y}} over the GENERATED default satisfies WF and Sub(prune …); its load equals the load of {solution: {cp_s: 1300}}", strength="nonvacuity"),
     dict(name="Snow.C19.default_read_paths_known", clause="hK holds for the shipped default file (GENERATED tree Gen.defaultCfg): calculateDerived reads only paths made of default key names", strength="full"),
     dict(name="Snow.C19.default_welltyped", clause="the shipped default configuration is well-typed", strength="witness"),
     dict(name="Snow.C19.default_ok", clause="inhabitation: calculateDerived returns constants for the shipped default configuration (hypothesis of all derived_*, supported_of_ok, no_late_rejection)", strength="witness"),
@@ -110,7 +111,10 @@ LEVEL_TEXT = (
     "keys(custom) minus keys(default); unknown keys at any depth change neither a constant nor the exception, and a "
     "partial file never makes the load raise - both also stated at run level for the GENERATED default tree composed "
     "with the generated calculateDerived and the load (unknown_keys_inert_default, layering_exact_default; the "
-    "hypothesis hK on the read paths is discharged there by default_read_paths_known); nineteen defining relations of the derived constants (V, A, mass, "
+    "hypothesis hK on the read paths is discharged there by default_read_paths_known; what remains is: distinct keys "
+    "in every mapping of the file, and - unknown names removed - no valid key nested in a wrong place, under which "
+    "the load itself never raises; a concrete file with an unknown key over the generated default is exhibited, "
+    "default_instance_unknown_key); nineteen defining relations of the derived constants (V, A, mass, "
     "mass_solute, mass_water, T_eq_l, depression, cp_solution, hl, alpha, beta_solution, lambda_solution, copied "
     "values, presence of the VISF / spatial entries); for well-typed configurations an exception is raised iff the "
     "enumerations are outside the explicit decision table, and then NotImplementedError. Partial: 'never later' is "
